@@ -147,9 +147,20 @@ func opcodeKeysOfMapLiteral(c *Ctx, rel string, decl *ast.FuncDecl, valueString 
 		return true
 	})
 	// the same table written as a switch: opcodes listed in case clauses that do not just `return false` / `return ""`
+	taglessClause := map[*ast.CaseClause]bool{} // `switch { case op == OpX: ... }` is an if-chain, not a table
+	ast.Inspect(decl, func(n ast.Node) bool {
+		if sw, ok := n.(*ast.SwitchStmt); ok && sw.Tag == nil {
+			for _, st := range sw.Body.List {
+				if cc, ok := st.(*ast.CaseClause); ok {
+					taglessClause[cc] = true
+				}
+			}
+		}
+		return true
+	})
 	ast.Inspect(decl, func(n ast.Node) bool {
 		cc, ok := n.(*ast.CaseClause)
-		if !ok || cc.List == nil {
+		if !ok || cc.List == nil || taglessClause[cc] {
 			return true
 		}
 		neg := false
